@@ -1,6 +1,7 @@
 (** C12: a parser can be reused: Reset with a new Buffer behaves like a fresh parser. *)
 From PegV Require Import Base.Tac Spec.Syntax Spec.Peg Model.Machine Model.Gen Model.Analyses Model.Emit Model.SEmit Model.Exec
-  Proofs.PegFacts Proofs.Forest Proofs.Top Proofs.SEmitFile Properties.Example.
+  Proofs.PegFacts Proofs.Forest Proofs.Top Proofs.SEmitFile Spec.WF Model.Optimize Model.Premises Proofs.OptSound Proofs.ParseTop Properties.Example.
+Local Open Scope nat_scope.
 
 (** Whatever state [st0] the parser object was left in by earlier inputs (token slice, memo table,
     maxToken, position) and a fresh object [st0'] give, after Reset, the same verdict, position,
@@ -35,6 +36,27 @@ Proof.
   exact (generated_code_options_invisible g ptx buf penv Hg Hb Hs memo inline memo inline n r st0 st0' rr Hd Hsl Hd Hsl Hr H res1 res2 X1 X2).
 Qed.
 Print Assumptions C12_generated_code_reuse_is_fresh.
+
+(** ... and with no side condition at all (Proofs/ParseTop.v): for every grammar with a well-formedness certificate and
+    every option combination, whatever the call Parse() makes returns after Reset in an object that has parsed before
+    ([st0] arbitrary: token slice, memo table, maxToken, position left by earlier inputs) is what it returns in a fresh
+    one: same verdict and, on success, same offset and token list - every execution of either. *)
+Theorem C12_generated_parser_reuse_is_fresh :
+  forall g tab rank, wf_b g tab rank = true -> good_grammar g ->
+  (forall r b, nth_error g r = Some (RBody b) -> ranges_ok b = true) ->
+  grammar_alt2 g -> closed_names g ->
+  forall ptx buf penv, good_buf buf -> valid_buf buf ->
+  forall memo inline sw rb st0,
+    nth_error g 0 = Some rb -> rb <> RNil ->
+    forall out1 out2,
+      xcall buf penv (mk_opts true memo inline (tree_of sw g)) (gen_fn (tree_of sw g) ptx inline) 0 (reset st0) out1 ->
+      xcall buf penv (mk_opts true memo inline (tree_of sw g)) (gen_fn (tree_of sw g) ptx inline) 0 (reset zero_state) out2 ->
+      exists b s1 s2, out1 = Ret b s1 /\ out2 = Ret b s2 /\ (b = true -> pos s1 = pos s2 /\ live s1 = live s2).
+Proof.
+  intros g tab rank Hwf Hg Hro Ha Hc ptx buf penv Hb Hv memo inline sw rb st0 Hr Hn out1 out2 X1 X2.
+  exact (generated_parsers_agree g tab rank Hwf Hg Hro Ha Hc ptx buf penv Hb Hv memo inline sw memo inline sw rb st0 zero_state Hr Hn out1 out2 X1 X2).
+Qed.
+Print Assumptions C12_generated_parser_reuse_is_fresh.
 
 (** Integer width.  The generic parameter U types buffer offsets only (position, token begin/end;
     since fix a74140a the token *index* is a uint32 of its own).  Every offset the parser reports is
